@@ -10,6 +10,7 @@ import (
 	"path/filepath"
 	"regexp"
 	"runtime/debug"
+	"runtime/pprof"
 	"sort"
 	"strconv"
 	"strings"
@@ -156,10 +157,15 @@ type HarnessSpec struct {
 	Depth     int
 	Cap       int
 	TimeoutMs int
+	JobSecs   int // hard wall-clock limit for one job (default 240 s)
+	ExecSecs  int // budget for symbolic execution (default 300 s)
 	Note      string // bounds in words
 	GoQueue   bool
 	NoDedupe  bool // map range: do not de-duplicate keys (only for idempotent set-algebra loops, stated as a cut)
 	Solvers   []string
+	CaseGen   func() []map[string]int64 `json:"-"` // case split given as an explicit list (alternative to Split)
+	CaseNote  string
+	Split     []SplitDim // case split: these nondets are enumerated (one engine run per combination); everything else stays symbolic
 	Only      []string // replacements restricted to this harness: "target=model"
 	Without   []string // package-level replacements disabled for this harness
 }
@@ -177,6 +183,9 @@ type HarnessResult struct {
 	SolveSecs  float64
 	SolverTime float64
 	Nondets    int
+	Skipped    bool
+	FeasQueries, FeasCuts int
+	FeasSecs   float64
 	Err        string
 	eng        *Engine
 }
@@ -218,6 +227,28 @@ func newEngine(l *loaded, hs HarnessSpec) *Engine {
 		if e.pin == nil {
 			e.pin = map[string]int64{}
 		}
+	}
+	e.maxTerms = 6_000_000
+	e.deadline = time.Now().Add(5 * time.Minute)
+	if hs.ExecSecs > 0 {
+		e.deadline = time.Now().Add(time.Duration(hs.ExecSecs) * time.Second)
+	}
+	e.traceCalls = os.Getenv("VERIF_TRACE_CALLS") != ""
+	e.noFeas = noFeasGlobal
+	if len(pinCase) > 0 {
+		e.pinCase = pinCase
+	}
+	if sf := os.Getenv("VERIF_SHADOW"); sf != "" {
+		b, err := os.ReadFile(sf)
+		if err != nil {
+			fatal("%v", err)
+		}
+		var rf replayFile
+		json.Unmarshal(b, &rf)
+		e.shadow = rf.Values
+		e.shadowAsg = map[string]uint64{}
+		e.shadowMemo = map[int]uint64{}
+		e.shadowLog, _ = os.Create(os.Getenv("VERIF_SHADOWLOG"))
 	}
 	e.goQueue = hs.GoQueue
 	e.rangeNoDedupe = hs.NoDedupe
@@ -265,6 +296,10 @@ func runHarness(l *loaded, hs HarnessSpec, so solveOpts) (res *HarnessResult) {
 		defer func() {
 			if r := recover(); r != nil {
 				if ae, ok := r.(abortErr); ok {
+					if ae.msg == "skip-case" {
+						res.Skipped = true
+						return
+					}
 					res.Err = "cannot encode: " + ae.msg
 					return
 				}
@@ -276,6 +311,10 @@ func runHarness(l *loaded, hs HarnessSpec, so solveOpts) (res *HarnessResult) {
 		e.addOblig("witness", "end of harness reachable", "end of "+hs.Func, g)
 	}()
 	res.ExecSecs = time.Since(t0).Seconds()
+	if e.feas != nil {
+		e.feas.kill()
+	}
+	res.FeasQueries, res.FeasCuts, res.FeasSecs = e.feasN, e.feasCut, e.feasSecs
 	res.Obligs = e.obligs
 	res.Assumes = len(e.assumes)
 	res.Blocks, res.Edges, res.Calls, res.Terms = e.blocksRun, e.edges, e.calls, nTerms
@@ -284,7 +323,7 @@ func runHarness(l *loaded, hs HarnessSpec, so solveOpts) (res *HarnessResult) {
 		res.Funcs = append(res.Funcs, f)
 	}
 	sort.Strings(res.Funcs)
-	if res.Err != "" {
+	if res.Err != "" || res.Skipped {
 		return
 	}
 	if so.timeoutMs == 0 {
@@ -314,6 +353,8 @@ func resetTerms() {
 	bddMemo = map[int]int{}
 	bddApply = map[[3]int]int{}
 	bddDisabled = false
+	bddSecs = 0
+	bddCalls = 0
 	nObjects = 0
 	wgCount = map[string]*Term{}
 }
@@ -435,6 +476,11 @@ func cmdReplay(path string) int {
 }
 
 func main() {
+	if pf := os.Getenv("VERIF_CPUPROFILE"); pf != "" {
+		f, _ := os.Create(pf)
+		pprof.StartCPUProfile(f)
+		defer pprof.StopCPUProfile()
+	}
 	if len(os.Args) < 2 {
 		fatal("usage: vcheck run <property> [--tier quick|thorough] | vcheck replay <file> | vcheck harness <pkg> <func>")
 	}
@@ -453,6 +499,8 @@ func main() {
 		os.Exit(runProperty(os.Args[2], *tier, *only))
 	case "replay":
 		os.Exit(cmdReplay(os.Args[2]))
+	case "worker":
+		cmdWorker()
 	case "harness":
 		fs := flag.NewFlagSet("harness", flag.ExitOnError)
 		unwind := fs.Int("unwind", 8, "loop bound")
@@ -464,13 +512,31 @@ func main() {
 		hs := HarnessSpec{Pkg: os.Args[2], Func: os.Args[3], Unwind: *unwind, Recur: *recur}
 		if reg := findSpec(os.Args[3]); reg != nil {
 			hs = *reg
+			if flagSet(fs, "unwind") {
+				hs.Unwind = *unwind
+			}
+		}
+		if pc := os.Getenv("VERIF_PINCASE"); pc != "" {
+			pinCase = map[string]int64{}
+			for _, kv := range strings.Split(pc, ",") {
+				p := strings.SplitN(kv, "=", 2)
+				v, _ := strconv.ParseInt(p[1], 10, 64)
+				pinCase[p[0]] = v
+			}
+		}
+		if os.Getenv("VERIF_NOFEAS") != "" {
+			noFeasGlobal = true
 		}
 		r := runHarness(l, hs, solveOpts{workers: *workers, timeoutMs: *to, solvers: []string{"z3-new", "z3"}})
 		printResult(r)
+		pprof.StopCPUProfile()
 	default:
 		fatal("unknown command %s", os.Args[1])
 	}
 }
+
+var noFeasGlobal bool
+var pinCase map[string]int64
 
 func flagSet(fs *flag.FlagSet, name string) bool {
 	set := false
@@ -483,8 +549,9 @@ func flagSet(fs *flag.FlagSet, name string) bool {
 }
 
 func printResult(r *HarnessResult) {
-	fmt.Printf("harness %s: exec %.2fs solve %.2fs blocks=%d edges=%d calls=%d terms=%d nondets=%d assumes=%d obligs=%d\n",
-		r.Spec.Func, r.ExecSecs, r.SolveSecs, r.Blocks, r.Edges, r.Calls, r.Terms, r.Nondets, r.Assumes, len(r.Obligs))
+	fmt.Printf("harness %s: exec %.2fs solve %.2fs blocks=%d edges=%d calls=%d terms=%d nondets=%d assumes=%d obligs=%d feas=%d/%d(%.1fs)\n",
+		r.Spec.Func, r.ExecSecs, r.SolveSecs, r.Blocks, r.Edges, r.Calls, r.Terms, r.Nondets, r.Assumes, len(r.Obligs), r.FeasCuts, r.FeasQueries, r.FeasSecs)
+	fmt.Printf("  bdd: %d calls %.2fs, %d nodes, gaveup=%d disabled=%v\n", bddCalls, bddSecs, len(bddNodes), bddGaveUp, bddDisabled)
 	if r.Err != "" {
 		fmt.Println("  ERROR:", r.Err)
 	}
@@ -507,7 +574,10 @@ func printResult(r *HarnessResult) {
 				sb.WriteString(k + "=" + strconv.FormatInt(vals[k], 10) + " ")
 			}
 			fmt.Println("      model:", sb.String())
-			fmt.Println("      cond under model evaluates to", evalTerm(o.cond, o.model, map[int]uint64{}))
+			fmt.Println("      cond under model evaluates to", evalTerm(o.cond, o.model, map[int]uint64{}), " stack:", o.stack)
+			if os.Getenv("VERIF_SHOWCOND") != "" {
+				fmt.Println("      cond:", termStr(o.cond, 12))
+			}
 			for _, tr := range r.eng.traces {
 				fmt.Printf("      trace %s: reached=%d value=%d\n", tr.label, evalTerm(tr.g, o.model, map[int]uint64{}), evalTerm(tr.t, o.model, map[int]uint64{}))
 			}
